@@ -56,9 +56,10 @@ impl Srgb {
     ///
     /// * `&mut self` - Self
     pub fn as_linear(&mut self) {
-        self.r = self.r.powf(2.2);
-        self.g = self.g.powf(2.2);
-        self.b = self.b.powf(2.2);
+        // a channel slightly below zero (matrix residue) has no real power: clamp it
+        self.r = self.r.max(0_f64).powf(2.2);
+        self.g = self.g.max(0_f64).powf(2.2);
+        self.b = self.b.max(0_f64).powf(2.2);
     }
 
     /// Transform a linear sRGB into a non linear sRGB
@@ -67,9 +68,9 @@ impl Srgb {
     ///
     /// * `&mut self` - Self
     pub fn as_non_linear(&mut self) {
-        self.r = self.r.powf(1_f64 / 2.2);
-        self.g = self.g.powf(1_f64 / 2.2);
-        self.b = self.b.powf(1_f64 / 2.2);
+        self.r = self.r.max(0_f64).powf(1_f64 / 2.2);
+        self.g = self.g.max(0_f64).powf(1_f64 / 2.2);
+        self.b = self.b.max(0_f64).powf(1_f64 / 2.2);
     }
 }
 
